@@ -13,7 +13,8 @@ CONSTANTS EmitEdges, \* TRUE: every value-graph transition is printed too (histo
           K,        \* value modifications per path
           KMut,     \* byte mutations are applied to values at depth < KMut
           KJson,    \* alternative / invalid JSON spellings are derived from values at depth < KJson
-          KRe       \* non-minimal TL2 re-encodings are derived from values at depth < KRe
+          KRe,      \* non-minimal TL2 re-encodings are derived from values at depth < KRe
+          KMut2     \* byte mutations of TL2 encodings are applied to values at depth < KMut2
 
 VARIABLE st
 
@@ -53,7 +54,11 @@ StepRe == /\ st.kind = "val" /\ st.k < KRe /\ TY(st.tn).tl2
                   /\ st' = [kind |-> "reenc", tn |-> st.tn, v |-> st.v, m |-> m, k |-> 0]
              \/ (~TY(st.tn).alias /\ st' = [kind |-> "reenc", tn |-> st.tn, v |-> st.v, m |-> "oversize", k |-> 0])
 
-Next == StepVal \/ StepMut \/ StepJson \/ StepRe
+Muts2(b) == Muts(b) \cup {[b EXCEPT ![j] = 255] : j \in 1..Len(b)} \cup {[b EXCEPT ![j] = 254] : j \in 1..Len(b)}
+StepMut2 == /\ st.kind = "val" /\ st.k < KMut2 /\ TY(st.tn).tl2
+            /\ \E m \in Muts2(Enc2(st.tn, st.v, FALSE)) : st' = [kind |-> "bytes2", tn |-> st.tn, b |-> m, k |-> 0]
+
+Next == StepVal \/ StepMut \/ StepJson \/ StepRe \/ StepMut2
 
 View == [st EXCEPT !.k = 0]
 
@@ -80,6 +85,9 @@ Payload ==
         hastl2 |-> TY(st.tn).tl2,
         tl2 |-> IF TY(st.tn).tl2 THEN Enc2(st.tn, st.v, FALSE) ELSE <<>>,
         json |-> WJ(st.tn, NoEnv, st.v, "canon")]
+  ELSE IF st.kind = "bytes2"
+  THEN [kind |-> "bytes2", tn |-> st.tn, b |-> st.b,
+        dec2ok |-> Dec2(st.tn, st.b, 1, Len(st.b)).ok]
   ELSE IF st.kind = "reenc"
   THEN [kind |-> "reenc", tn |-> st.tn, m |-> st.m, origin2 |-> TY(st.tn).origin2, negzero |-> HasNegZero(st.tn, st.v),
         b |-> ReBytes, accept |-> st.m # "oversize",
